@@ -63,4 +63,5 @@ def exd(data_offset, variant, columns, rows):
     for (rid, _), body in zip(rows, bodies):
         index += struct.pack(">II", rid, off)
         off += len(body)
-    return b"EXDF" + struct.pack(">HHI", 2, 0, len(index)) + b"\0" * 20 + index + b"".join(bodies)
+    # header: version, unknown, index size, data section size, 16 reserved bytes
+    return b"EXDF" + struct.pack(">HHII", 2, 0, len(index), sum(len(b) for b in bodies)) + b"\0" * 16 + index + b"".join(bodies)
